@@ -146,6 +146,15 @@ Proof. intros s rx1 w H. exact H. Qed.
 (* ================================================================== 2. the table invariant *)
 Definition TI (s : vsock) : Prop := 1 <= mss (v_ss s) /\ TIt (v_segs s).
 
+Lemma TI_meaning : forall s : vsock,
+  TI s <->
+  1 <= mss (v_ss s) /\
+  ss_len_bytes (v_segs s) = sum_sizes (ss_segs (v_segs s)) /\
+  exists base, tiled base (ss_segs (v_segs s)) /\
+               Forall (fun g => 0 < sg_size g) (ss_segs (v_segs s)) /\
+               ss_offset (v_segs s) = base + sum_sizes (ss_segs (v_segs s)).
+Proof. intros s. unfold TI, TIt, PT. tauto. Qed.
+
 Lemma TI_keep : forall s s', keep s s' -> TI s -> TI s'.
 Proof. intros s s' (_ & E1 & E2) H. unfold TI. rewrite E1, E2. exact H. Qed.
 
@@ -523,6 +532,246 @@ Proof.
   intros cfg mk c s0 ops H.
   apply (ftrace_forallb cci TI); [| apply TI_vstep | eapply TI_vsock_new; eauto].
   intros s o T. unfold c18_pre_monitor. rewrite fstep_of_post. apply TI_c18_pre, TI_vstep, T.
+Qed.
+
+
+(* ================================================================== 4. completed polls *)
+(* from the state the segmentation left to the state the poll leaves, when no restart is
+   requested: flags of segments only; the ring and "peer FIN seen" are unchanged *)
+Definition aft (s s' : vsock) : Prop :=
+  kfl s s' /\ ring (v_tx s') = ring (v_tx s) /\
+  is_remote_fin_or_later (v_state s') = is_remote_fin_or_later (v_state s).
+
+Lemma aft_refl s : aft s s.
+Proof. split; [apply kfl_refl|]. split; reflexivity. Qed.
+Lemma aft_trans a b c : aft a b -> aft b c -> aft a c.
+Proof. intros (A1 & A2 & A3) (B1 & B2 & B3). split; [eapply kfl_trans; eauto|]. split; congruence. Qed.
+
+Lemma aft_ctl : forall X (s s' : vsock) (m : step X) a,
+  stR keepr s m -> stR (txf (CC := CC)) s m -> m = SOk s' a -> aft s s'.
+Proof.
+  intros X s s' m a K T ->. cbn [stR] in *. destruct T as (_ & T2 & _ & _ & _ & _ & T7 & _).
+  split; [apply keep_kfl; exact (proj1 K)|]. rewrite T2, T7. split; reflexivity.
+Qed.
+
+Lemma aft_fw1 : forall s : vsock, aft s (transition_to_fin_wait_1 s).
+Proof.
+  intros s. split; [apply keep_kfl; exact (proj1 (transition_to_fin_wait_1_keepr s))|].
+  unfold transition_to_fin_wait_1. destruct (v_state s) eqn:E; cbn [v_tx v_state set_seq_nr set_state]; rewrite ?E; split; reflexivity.
+Qed.
+
+Lemma aft_tail : forall s : vsock, aft s (poll_tail s).
+Proof.
+  intros s. split; [apply keep_kfl; exact (proj1 (poll_tail_keepr s))|].
+  destruct (poll_tail_fields s) as (_ & _ & _ & St & _ & _ & _ & _ & _ & _ & _ & _ & _ & _ & _ & Tx & _).
+  rewrite St, Tx. split; reflexivity.
+Qed.
+
+Theorem poll_body_chain : forall (P : vsock -> Prop),
+  (forall a b, keep a b -> P a -> P b) ->
+  (forall a b, stx a b -> P a -> P b) ->
+  (forall s, P s -> stA P (process_all_incoming_messages cci s)) ->
+  forall s0 s', P s0 -> poll_body cci s0 = BrReturn s' PollPending -> v_transport_pending s' = false ->
+  exists s4 s5 u, P s4 /\ Bx s4 /\ split_tx_queue_into_segments cci s4 = SOk s5 u /\ aft s5 s'.
+Proof.
+  intros P Hk Hs Hp s0 s' P0 H T.
+  assert (Hkr : forall a b, keepr a b -> P a -> P b) by (intros a b K; apply Hs, keepr_stx; exact K).
+  unfold poll_body in H. fold (poll_start s0) in H.
+  assert (Ps : P (poll_start s0)) by (eapply Hk; [apply poll_start_keep | exact P0]).
+  revert Ps H. generalize (poll_start s0). clear s0 P0. intros s0 P0 H.
+  apply pend_pending_inv in H; [|exact T]. destruct H as (s1 & a1 & E1 & R1 & T1 & H).
+  assert (P1 : P s1).
+  { pose proof (maybe_send_syn_ack_keepr s0) as K. rewrite E1 in K. cbn [stR] in K. eapply Hkr; eauto. }
+  apply pend_pending_inv in H; [|exact T]. destruct H as (s2 & a2 & E2 & R2 & T2 & H).
+  assert (P2 : P s2).
+  { destruct (immediate_ack_to_transmit s1).
+    - pose proof (send_ack_keepr s1) as K. rewrite E2 in K. cbn [stR] in K. eapply Hkr; eauto.
+    - inversion E2; subst. exact P1. }
+  apply pend_pending_inv in H; [|exact T]. destruct H as (s3 & a3 & E3 & R3 & T3 & H).
+  assert (P3 : P s3) by (pose proof (Hp s2 P2) as K; rewrite E3 in K; exact K).
+  pose proof (pim_Bx _ _ _ E3 T3) as B3.
+  destruct (rx_flush (v_rx s3)) as [[rx1 fr] w]. destruct fr; [|discriminate].
+  assert (P4 : P (add_wakes (set_rx s3 rx1) (rx_wakes w))).
+  { eapply Hkr; [apply (rx_flush_keepr s3 rx1 (rx_wakes w)) | exact P3]. }
+  assert (B4 : Bx (add_wakes (set_rx s3 rx1) (rx_wakes w))) by exact B3.
+  revert P4 B4 H. generalize (add_wakes (set_rx s3 rx1) (rx_wakes w)). intros s4 P4 B4 H.
+  destruct (timer_expired _ _); [exfalso; eapply die_not_pending; eauto|].
+  apply bail_pending_inv in H. destruct H as (s5 & a5 & E5 & R5 & H).
+  exists s4, s5, a5. split; [exact P4|]. split; [exact B4|]. split; [exact E5|].
+  apply pend_pending_inv in H; [|exact T]. destruct H as (s6 & a6 & E6 & R6 & T6 & H).
+  assert (F6 : aft s5 s6).
+  { pose proof (send_tx_queue_stx cci s5) as K. pose proof (send_tx_queue_txf cci s5) as Tf.
+    rewrite E6 in K, Tf. cbn [stR] in K, Tf. apply stx_restart in K. destruct K as [_ K].
+    destruct Tf as (_ & T2' & _ & _ & _ & _ & T7 & _).
+    split; [apply K; exact R6|]. rewrite T2', T7. split; reflexivity. }
+  assert (F7 : aft s5 (if should_close_on_own_initiative s6 then transition_to_fin_wait_1 s6 else s6)).
+  { destruct (should_close_on_own_initiative s6); [|exact F6]. eapply aft_trans; [exact F6 | apply aft_fw1]. }
+  revert F7 H. generalize (if should_close_on_own_initiative s6 then transition_to_fin_wait_1 s6 else s6).
+  intros s7 F7 H.
+  apply pend_pending_inv in H; [|exact T]. destruct H as (s8 & a8 & E8 & R8 & T8 & H).
+  pose proof (aft_ctl _ s7 s8 _ a8 (maybe_send_fin_keepr s7) (maybe_send_fin_txf s7) E8) as F8.
+  apply pend_pending_inv in H; [|exact T]. destruct H as (s9 & a9 & E9 & R9 & T9 & H).
+  pose proof (aft_ctl _ s8 s9 _ a9 (maybe_send_ack_keepr s8) (maybe_send_ack_txf s8) E9) as F9.
+  assert (Hs' : s' = poll_tail s9).
+  { destruct (state_is_closed _ _); [discriminate|]. unfold poll_tail.
+    destruct (next_timer_to_poll _) as [sx t]. destruct t; inversion H; reflexivity. }
+  rewrite Hs'.
+  eapply aft_trans; [exact F7|]. eapply aft_trans; [exact F8|]. eapply aft_trans; [exact F9|]. apply aft_tail.
+Qed.
+
+(* a completed poll: the last iteration segmented from a state satisfying the invariant *)
+Theorem poll_completed : forall (P : vsock -> Prop),
+  (forall a b, keep a b -> P a -> P b) ->
+  (forall a b, stx a b -> P a -> P b) ->
+  (forall s, P s -> stA P (process_all_incoming_messages cci s)) ->
+  (forall s, P s -> Bx s -> stA P (split_tx_queue_into_segments cci s)) ->
+  forall s s', P (poll_init s) -> poll cci s = (s', PollPending) -> v_transport_pending s' = false ->
+  P s' /\ exists s4 s5 u, P s4 /\ Bx s4 /\ split_tx_queue_into_segments cci s4 = SOk s5 u /\ aft s5 s'.
+Proof.
+  intros P Hk Hs Hp Hsp s s' P0 E T.
+  destruct (poll_inv_gen P Hk Hs Hp Hsp s s' _ P0 E) as [Ps' L]. split; [exact Ps'|].
+  destruct (L eq_refl) as (s0 & Q0 & Eb).
+  eapply poll_body_chain; eauto.
+Qed.
+
+(* ---- the observable guards ---- *)
+Lemma completed_eq : forall (s : vsock) sc s' r, poll cci (VSockRec.set_sends s sc) = (s', r) ->
+  c18_completed (fstep_of cci s (VoPoll sc)) =
+  match r with PollPending => negb (v_transport_pending s') | _ => false end.
+Proof. intros s sc s' r E. rewrite (fstep_of_poll cci s sc s' r E). destruct r; reflexivity. Qed.
+
+Lemma completed_poll : forall (s : vsock) o,
+  c18_completed (fstep_of cci s o) = true ->
+  exists sc s', o = VoPoll sc /\ poll cci (VSockRec.set_sends s sc) = (s', PollPending) /\
+                v_transport_pending s' = false /\
+                fs_pre (fstep_of cci s o) = fp_of_vsock cci s /\ fs_post (fstep_of cci s o) = fp_of_vsock cci s'.
+Proof.
+  intros s o.
+  destruct o; try (unfold c18_completed; rewrite fstep_of_event; cbn [fevent_of]; discriminate).
+  destruct (poll cci (VSockRec.set_sends s script)) as [s' r] eqn:E.
+  rewrite (completed_eq s script s' r E). intro H.
+  exists script, s'. split; [reflexivity|].
+  destruct r; try discriminate.
+  split; [exact E|]. split; [destruct (v_transport_pending s'); [discriminate|reflexivity]|].
+  rewrite (fstep_of_poll cci s script s' _ E). split; reflexivity.
+Qed.
+
+Definition TC (off0 : Z) (s : vsock) : Prop := TI s /\ CoreT off0 s.
+
+Lemma TC_closed : forall off0,
+  (forall a b, keep a b -> TC off0 a -> TC off0 b) /\
+  (forall a b, stx a b -> TC off0 a -> TC off0 b) /\
+  (forall s, TC off0 s -> stA (TC off0) (process_all_incoming_messages cci s)) /\
+  (forall s, TC off0 s -> Bx s -> stA (TC off0) (split_tx_queue_into_segments cci s)).
+Proof.
+  intros off0. split; [|split; [|split]].
+  - intros a b K [X Y]. split; [eapply TI_keep | eapply CoreT_keep]; eauto.
+  - intros a b K [X Y]. split; [eapply TI_stx | eapply CoreT_stx]; eauto.
+  - intros s [X Y]. pose proof (CoreT_pim off0 s Y) as C.
+    pose proof (process_all_incoming_messages_pimrel cci s) as R.
+    destruct (process_all_incoming_messages cci s); cbn [stA stR] in *; try exact I;
+      (split; [eapply TI_pimrel; eauto | exact C]).
+  - intros s [X Y] B. pose proof (CoreT_split off0 s Y B) as C. pose proof (TI_split s X) as D.
+    destruct (split_tx_queue_into_segments cci s); cbn [stA] in *; try exact I; split; assumption.
+Qed.
+
+(* ---- c18_off_all_segmented ---- *)
+Theorem c18_off_all_segmented_ok_step : forall cfg (s : vsock) o,
+  TI s -> (vc_nagle cfg = false -> o_nagle (v_opts s) = false) ->
+  c18_off_all_segmented_ok cfg (fstep_of cci s o) = true.
+Proof.
+  intros cfg s o HT HN. unfold c18_off_all_segmented_ok.
+  destruct (c18_completed _) eqn:Cm; [|reflexivity].
+  destruct (completed_poll s o Cm) as (sc & s' & -> & E & T & -> & ->). clear Cm.
+  destruct (vc_nagle cfg) eqn:Ng; [reflexivity|]. specialize (HN eq_refl). cbn [negb andb].
+  destruct (c18_no_probe_last (fp_of_vsock cci s)) eqn:NP; [|reflexivity].
+  destruct (c18_no_probe_last (fp_of_vsock cci s')) eqn:NP'; [|reflexivity].
+  cbn [fp_of_vsock f_state f_tx_len f_unsegmented f_last_remote_window f_seg_offset andb].
+  destruct (is_remote_fin_or_later (v_state s')) eqn:Fin; [reflexivity|].
+  destruct (0 <? Z.of_nat (length (ring (v_tx s')))) eqn:Tx; [|reflexivity]. cbn [negb andb].
+  apply lastok_fp in NP. apply lastok_fp in NP'.
+  set (off0 := ss_offset (v_segs s)).
+  destruct (TC_closed off0) as (C1 & C2 & C3 & C4).
+  assert (P0 : TC off0 (poll_init (VSockRec.set_sends s sc))).
+  { split; [exact HT | apply CoreT_init; assumption]. }
+  destruct (poll_completed (TC off0) C1 C2 C3 C4 _ _ P0 E T) as (_ & s4 & s5 & u & [T4 C4'] & _ & Es & Af).
+  destruct Af as (((W & _ & O & U) & _ & (F & Of & _)) & Rg & Fn).
+  pose proof (split_spec cci s4) as Sp. rewrite Es in Sp.
+  destruct Sp as ((W5 & _ & O5 & _ & Rg5 & St5) & Sp).
+  destruct C4' as (M4 & Tb4 & _). destruct T4 as [_ Ti4].
+  assert (G : v_unsegmented s5 = 0 \/ v_last_remote_window s5 <= ss_offset (v_segs s5) - off0).
+  { destruct Sp as [(_ & _ & _ & [Rn|Rf])|[(E1 & _ & NL)|(t2 & ss2 & P & _ & _ & Lb & L)]].
+    - exfalso. rewrite Rg, Rg5, Rn in Tx. cbn [length] in Tx. lia.
+    - exfalso. rewrite Fn, St5, Rf in Fin. discriminate.
+    - exfalso. apply NL. rewrite <- E1. apply (lastok_F2_eq _ _ F). exact NP'.
+    - assert (Eo : v_opts s4 = v_opts s).
+      { destruct (poll_pframe0 cci _ _ _ E) as (P1 & _). rewrite <- O5, <- O. exact P1. }
+      rewrite Eo, HN in L. pose proof P as [M2 _].
+      destruct (pre2_Tab off0 _ _ _ _ P Tb4) as [Tb2 _]. pose proof (Tab_ge _ _ Tb2) as Ge.
+      pose proof (TIt_len_nonneg _ (pre2_TIt _ _ _ _ P Ti4)) as Ln.
+      apply segment_loop_off in L; [|lia|lia].
+      destruct L as (L1 & L2 & [L3|[L3|L3]]).
+      + left. exact L3.
+      + right. rewrite W5. lia.
+      + exfalso. apply L3. apply (lastok_F2_eq _ _ F). exact NP'. }
+  rewrite U, W, Of. fold off0. destruct G as [G|G]; [rewrite G; reflexivity|].
+  apply orb_true_iff. right. lia.
+Qed.
+
+Theorem c18_off_all_segmented_ok_trace : forall mk c (s0 : vsock) ops,
+  vsock_new cci mk c = Some s0 -> forallb (c18_off_all_segmented_ok c) (ftrace cci s0 ops) = true.
+Proof.
+  intros mk c s0 ops H.
+  apply (ftrace_forallb cci (fun s => TI s /\ NG c s)).
+  - intros s o [H1 H2]. apply c18_off_all_segmented_ok_step; [exact H1|]. intro N. rewrite H2. exact N.
+  - intros s o [H1 H2]. split; [apply TI_vstep; exact H1 | apply NG_vstep; exact H2].
+  - split; [eapply TI_vsock_new; eauto | eapply NG_vsock_new; eauto].
+Qed.
+
+(* ---- c18_drain_sends ---- *)
+Lemma TI_closed :
+  (forall a b, keep a b -> TI a -> TI b) /\
+  (forall a b, stx a b -> TI a -> TI b) /\
+  (forall s, TI s -> stA TI (process_all_incoming_messages cci s)) /\
+  (forall s, TI s -> Bx s -> stA TI (split_tx_queue_into_segments cci s)).
+Proof.
+  split; [apply TI_keep|]. split; [apply TI_stx|]. split.
+  - intros s X. eapply (stR_inv pimrel); [apply TI_pimrel | apply process_all_incoming_messages_pimrel | exact X].
+  - intros s X _. apply TI_split. exact X.
+Qed.
+
+Theorem c18_drain_sends_ok_step : forall cfg (s : vsock) o,
+  TI s -> c18_drain_sends_ok cfg (fstep_of cci s o) = true.
+Proof.
+  intros cfg s o HT. unfold c18_drain_sends_ok.
+  destruct (c18_completed _) eqn:Cm; [|reflexivity].
+  destruct (completed_poll s o Cm) as (sc & s' & -> & E & T & _ & ->). clear Cm.
+  cbn [fp_of_vsock f_state f_tx_len f_last_remote_window f_seg_len_bytes f_segs andb].
+  destruct (is_remote_fin_or_later (v_state s')) eqn:Fin; [reflexivity|].
+  destruct (0 <? v_last_remote_window s') eqn:Wp; [|reflexivity].
+  destruct (ss_len_bytes (v_segs s') <? Z.of_nat (length (ring (v_tx s')))) eqn:Lt; [|reflexivity].
+  cbn [negb andb]. rewrite nonempty_map.
+  destruct TI_closed as (C1 & C2 & C3 & C4).
+  destruct (poll_completed TI C1 C2 C3 C4 (VSockRec.set_sends s sc) s' HT E T) as ([_ Ti'] & s4 & s5 & u & [M4 Ti4] & _ & Es & Af).
+  destruct Af as (((W & _ & O & U) & _ & (F & Of & Lbf)) & Rg & Fn).
+  pose proof (split_spec cci s4) as Sp. rewrite Es in Sp.
+  destruct Sp as ((W5 & _ & O5 & _ & Rg5 & St5) & Sp).
+  assert (G : ss_segs (v_segs s5) <> []).
+  { destruct Sp as [(_ & _ & _ & [Rn|Rf])|[(E1 & _ & NL)|(t2 & ss2 & P & Rne & _ & Lb & L)]].
+    - exfalso. pose proof (TIt_len_nonneg _ Ti'). rewrite Rg, Rg5, Rn in Lt. cbn [length] in Lt. lia.
+    - exfalso. rewrite Fn, St5, Rf in Fin. discriminate.
+    - intro En. apply NL. rewrite <- E1, En. exact I.
+    - intro En. apply segment_loop_first in L; [|exact Rne|exact En].
+      destruct L as [L Et]. rewrite Lbf, Et, Rg, Rg5 in Lt. rewrite W, W5 in Wp. lia. }
+  apply F2_length in F. destruct (ss_segs (v_segs s5)); [congruence|].
+  destruct (ss_segs (v_segs s')); [discriminate|reflexivity].
+Qed.
+
+Theorem c18_drain_sends_ok_trace : forall cfg mk c (s0 : vsock) ops,
+  vsock_new cci mk c = Some s0 -> forallb (c18_drain_sends_ok cfg) (ftrace cci s0 ops) = true.
+Proof.
+  intros cfg mk c s0 ops H.
+  apply (ftrace_forallb cci TI); [apply c18_drain_sends_ok_step | apply TI_vstep | eapply TI_vsock_new; eauto].
 Qed.
 
 End WithCC.
